@@ -1265,7 +1265,7 @@ class Container:
         if quantity_value <= 0:
             raise ValueError("Quantity must be positive.")
 
-        if solute not in source.contents:
+        if solute not in source.contents or source.contents[solute] == 0:
             raise ValueError(f"Source container does not contain {solute.name}.")
 
         if solvent == solute:
